@@ -159,7 +159,10 @@ def run(ctx):
 
     # ---- the constructor calls themselves: every argument handed over is one the oracle class takes ------------------------------------
     n_ctor = 0
-    for c in ast.walk(setup.node):
+    ctor_calls = [c for c in ast.walk(setup.node) if isinstance(c, ast.Call) and isinstance(c.func, ast.Name) and c.func.id in classes]
+    seen_ = {id(c) for c in ctor_calls}
+    ctor_calls += [c for c in dispatch.values() if c is not None and id(c) not in seen_]          # constructions through a dispatch table (one per class)
+    for c in ctor_calls:
         if isinstance(c, ast.Call) and isinstance(c.func, ast.Name) and c.func.id in classes:
             crel = resolve_class(repo, c.func.id)
             init = repo.module(crel).funcs.get(c.func.id + '.__init__')
